@@ -5,7 +5,6 @@ from typedpy.structures import (
     Structure,
     TypedField,
     ImmutableField,
-    ClassReference,
 )
 from typedpy.commons import python_ver_atleast_39
 from .collections_impl import (
@@ -178,10 +177,6 @@ class Array(
                 if isinstance(items, Number) or items.__class__ is String:
                     self._serialize = lambda value: list(value)
                     return list(value)
-                if isinstance(items, ClassReference):
-                    serializer = items._ty.serialize
-                    self._serialize = lambda value: [serializer(x) for x in value]
-                    return self._serialize(value)
                 serialize = items.serialize
                 self._serialize = lambda value: [serialize(x) for x in value]
                 return self._serialize(value)
